@@ -23,6 +23,7 @@ func init() {
 			c02R5(c, "C02.R5")
 			c02R6(c, "C02.R6")
 			c02R7(c, "C02.R7")
+			ruleFreelistNoAlias(c, "C02.R9") // mutable in-memory structures never alias the (read-only, shared) mapping
 			c06R2(c, "C02.R8") // a reader's pages stay unchanged only if writers put nothing but allocator-provided page ids into the dirty-page cache
 		},
 		Platform: func(c *Ctx) {
